@@ -388,11 +388,15 @@ def make_junk(kind, run):
         return Event.from_json('{"event_type": "service_finished", "data": {"service_uuid": "zzz"}}')
     if kind == "start_event":
         return Event("start_production_task", {})
+    if kind == "set_place_real":
+        # an internal place-marking event naming a place that exists
+        net = run.s.petri_net_generator.net
+        return Event("loc_started", {"place_uuid": next(iter(net._place.keys()))})
     raise ValueError(kind)
 
 
 JUNK_KINDS = ["empty", "unknown_type", "set_place_bogus", "finish_no_data", "finish_none_data",
-              "finish_wrong_key", "from_json_unknown"]
+              "finish_wrong_key", "from_json_unknown", "start_event", "set_place_real"]
 
 
 def net_signature(run, I):
